@@ -16,6 +16,10 @@
 //   ignore_site_calls   dir_manager.go getAllFile, global_conf.go IsIgnoreCompleteFile (+ isIgnoreRelFile if it exists):
 //                       which of isIgnoreFile / isIgnoreFloder / isIgnoreRelFile / IsIgnoreCompleteFile each one calls,
 //                       in source order (the two places where the ignore-for-analysis rules decide)
+//   settings_clear_steps other_request.go clearLspServer (run by every settings change that takes effect): its statements in
+//                       source order, "clear:<map>" = `for f := range l.<map> { l.ClearOneFileDiagnostic(ctx, f) }` (also with the
+//                       body wrapped in `if _, ok := l.fileErrorMap[f]; !ok { ... }`: skip what the first loop cleared),
+//                       "reset:<map>" = `l.<map> = <literal>`, "?" = anything else
 package main
 
 import (
@@ -380,6 +384,86 @@ func c17IgnoreSiteCalls(fd *ast.FuncDecl) []string {
 	return out
 }
 
+// c17SettingsClear: the statements of clearLspServer, see the file header
+func c17SettingsClear(fd *ast.FuncDecl) []string {
+	recvField := func(e ast.Expr) (string, bool) { // l.<field>
+		se, ok := e.(*ast.SelectorExpr)
+		if !ok {
+			return "", false
+		}
+		if id, ok := se.X.(*ast.Ident); !ok || id.Name != "l" {
+			return "", false
+		}
+		return se.Sel.Name, true
+	}
+	isClearCall := func(st ast.Stmt, key string) bool { // l.ClearOneFileDiagnostic(ctx, key)
+		es, ok := st.(*ast.ExprStmt)
+		if !ok {
+			return false
+		}
+		ce, ok := es.X.(*ast.CallExpr)
+		if !ok || len(ce.Args) != 2 {
+			return false
+		}
+		if name, ok := recvField(ce.Fun); !ok || name != "ClearOneFileDiagnostic" {
+			return false
+		}
+		id, ok := ce.Args[1].(*ast.Ident)
+		return ok && id.Name == key
+	}
+	var out []string
+	for _, st := range fd.Body.List {
+		switch s := st.(type) {
+		case *ast.RangeStmt:
+			m, ok := recvField(s.X)
+			key, okk := s.Key.(*ast.Ident)
+			if !ok || !okk || s.Value != nil || len(s.Body.List) != 1 {
+				out = append(out, "?")
+				continue
+			}
+			body := s.Body.List[0]
+			if isClearCall(body, key.Name) {
+				out = append(out, "clear:"+m)
+				continue
+			}
+			// if _, ok := l.fileErrorMap[key]; !ok { l.ClearOneFileDiagnostic(ctx, key) }
+			good := false
+			if is, ok := body.(*ast.IfStmt); ok && is.Else == nil && len(is.Body.List) == 1 && isClearCall(is.Body.List[0], key.Name) {
+				if as, ok := is.Init.(*ast.AssignStmt); ok && len(as.Lhs) == 2 && len(as.Rhs) == 1 {
+					if ie, ok := as.Rhs[0].(*ast.IndexExpr); ok {
+						mm, ok1 := recvField(ie.X)
+						ik, ok2 := ie.Index.(*ast.Ident)
+						okv, ok3 := as.Lhs[1].(*ast.Ident)
+						if ue, ok4 := is.Cond.(*ast.UnaryExpr); ok1 && ok2 && ok3 && ok4 && mm == "fileErrorMap" && ik.Name == key.Name && ue.Op == token.NOT {
+							if ci, ok := ue.X.(*ast.Ident); ok && ci.Name == okv.Name {
+								good = true
+							}
+						}
+					}
+				}
+			}
+			if good {
+				out = append(out, "clear:"+m)
+			} else {
+				out = append(out, "?")
+			}
+		case *ast.AssignStmt:
+			if len(s.Lhs) == 1 && len(s.Rhs) == 1 {
+				if m, ok := recvField(s.Lhs[0]); ok {
+					if _, ok := s.Rhs[0].(*ast.CompositeLit); ok {
+						out = append(out, "reset:"+m)
+						continue
+					}
+				}
+			}
+			out = append(out, "?")
+		default:
+			out = append(out, "?")
+		}
+	}
+	return out
+}
+
 func init() {
 	registerGen("flags", func(repo string) (string, string, error) {
 		const out = "GenFlags.v"
@@ -559,6 +643,14 @@ func init() {
 		if len(sites[0].calls) == 0 || len(sites[1].calls) == 0 {
 			return out, "", fmt.Errorf("getAllFile / IsIgnoreCompleteFile: no ignore-rule call found: shape not recognised")
 		}
+		cls := c17FindFunc(fo, "clearLspServer")
+		if cls == nil {
+			return out, "", fmt.Errorf("other_request.go: func clearLspServer not found")
+		}
+		settingsClear := c17SettingsClear(cls)
+		if len(settingsClear) == 0 {
+			return out, "", fmt.Errorf("clearLspServer: empty body: shape not recognised")
+		}
 		guards, opens, chokes, err := c17ScanAnalysis(filepath.Join(ls, "check/analysis"))
 		if err != nil {
 			return out, "", err
@@ -637,6 +729,7 @@ func init() {
 			sq[i] = fmt.Sprintf("(\"%s\", %s)", st.fn, c17CoqStrings(st.calls))
 		}
 		fmt.Fprintf(&b, "(* which ignore-for-analysis helper the directory walk and the per-file predicate call *)\nDefinition ignore_site_calls : list (string * list string) :=\n  [%s].\n\n", strings.Join(sq, ";\n   "))
+		fmt.Fprintf(&b, "(* the statements of clearLspServer (what a settings change clears before it analyses the workspace again) *)\nDefinition settings_clear_steps : list string :=\n  %s.\n\n", c17CoqStrings(settingsClear))
 		dq := make([]string, len(docs))
 		for i, d := range docs {
 			dq[i] = fmt.Sprintf("(\"%s\", %s%%N)", d.name, d.ty)
